@@ -311,3 +311,26 @@ Example machine_example_full :
 Proof.
   intros s E. eapply MachineProofs.acked_sync_restores_nokill; [exact ex_init_ok|exact E|exact fixed3_steps_ok|reflexivity].
 Qed.
+
+(** * The machine's control flow is the control flow of the current source (regenerated skeleton)
+
+    [Gen.Skeleton] is printed from db.go on every run by tools/gen/skeleton.go: the protocol calls,
+    the assignments to the sync state, the tests of the checkpoint mode, the deferred functions,
+    the error exits and the returns of checkpointWithExecutor and execCheckpoint in source order
+    (independent of the names of locals, of operand order, of logging / diagnostics / trace points
+    and of guards that are not mode tests).  [Db.Skeleton] is that structure as the machine's
+    steps were written against it, with the step each part stands for.  A call moved across
+    another one, a dropped or moved `defer` (e.g. the flag clearing of a1345df installed after
+    execCheckpoint instead of before it), a new error exit between two steps or a changed mode
+    test breaks this obligation before any history is run. *)
+From LS Require Gen.Skeleton Db.Skeleton.
+
+Theorem checkpoint_skeleton_agrees :
+  Gen.Skeleton.skel_checkpointWithExecutor = Db.Skeleton.expected_checkpointWithExecutor.
+Proof. reflexivity. Qed.
+Print Assumptions checkpoint_skeleton_agrees.
+
+Theorem exec_checkpoint_skeleton_agrees :
+  Gen.Skeleton.skel_execCheckpoint = Db.Skeleton.expected_execCheckpoint.
+Proof. reflexivity. Qed.
+Print Assumptions exec_checkpoint_skeleton_agrees.
